@@ -549,4 +549,26 @@ func runC01(c *Ctx) {
 	ruleDotStructure(c)
 	ruleDataSource(c)
 	ruleLineLimitCounting(c) // the limiter below the reader counts octet by octet, independent of read boundaries
+	ruleBudgetNotEarly(c)
+}
+
+// ruleBudgetNotEarly (C01; the same two obligations are part of C06 R-limit-budget): with a size limit configured, a
+// message that fits still ends in end-of-file for every read size: the over-limit error needs a budget that is
+// exceeded (n < 0), not merely used up, and is never produced when the limit is lifted.
+func ruleBudgetNotEarly(c *Ctx) {
+	R := c.R
+	R.Rule("R-limit-not-early", "E3 edge-feasibility", "dataReader.Read reports ErrDataTooLarge only with limited == true and n < 0: reads whose sizes add up to exactly the budget still reach the end marker and EOF", 2)
+	f := c.A.Func("(*dataReader).Read")
+	if f == nil {
+		return
+	}
+	n := 0
+	allInstrs(f, func(in ssa.Instruction) {
+		if r, ok := in.(*ssa.Return); ok && len(r.Results) == 2 && describe(r.Results[1]) == "ErrDataTooLarge" {
+			n++
+			c.obUnreach("ErrDataTooLarge", in, `dataReader.limited == false`)
+			c.obUnreach("ErrDataTooLarge", in, `dataReader.n >= 0`)
+		}
+	})
+	R.Ob("(*dataReader).Read/over-limit returns found", c.P.Pos(f.Pos()), n >= 1, fmt.Sprintf("%d returns of ErrDataTooLarge", n))
 }
